@@ -6,6 +6,8 @@ the output is compared with the published relation evaluated by refmodel, inputs
 afterwards.  The workload adds the metamorphic probes (elementwise, aliases, weak limit).
 """
 import copy
+import os
+import json
 
 import numpy as np
 
@@ -126,6 +128,8 @@ NAMES = ['PY', 'HNC', 'MSA', 'MS']
 
 
 def cases(ctx):
+    if ctx.mine(2):
+        yield {'kind': 'optimized_mode'}
     if ctx.mine(1):
         yield {'kind': 'repo_suite'}          # the repository's own tests, run in-process under this check's monitors
     rng = ctx.rng('c09')
@@ -138,7 +142,72 @@ def cases(ctx):
                'gdtype': 'int' if rng.random() < 0.1 else 'float'}
 
 
+OPT_SCRIPT = r"""
+import json, sys, warnings
+warnings.simplefilter('ignore')
+import numpy as np
+import pyPRISM
+out = {'optimize_flag': sys.flags.optimize}
+rng = np.random.default_rng(7)
+r = 0.1 * np.arange(1, 41)
+sigma = 1.05
+u = 0.7 * np.cos(r) - 0.2            # soft everywhere, also inside the core
+for name in ('PercusYevick', 'PY', 'HyperNettedChain', 'HNC', 'MeanSphericalApproximation', 'MSA', 'MartynovSarkisov', 'MS'):
+    worst_core, worst_out = 0.0, 0.0
+    for flag in (True, False):
+        c = getattr(pyPRISM.closure, name)(apply_hard_core=flag)
+        c.sigma, c.potential = sigma, np.array(u)
+        for amp in (0.0, 0.3, 2.0):
+            g = rng.normal(size=len(r)) * amp
+            got = np.asarray(c.calculate(np.array(r), np.array(g)), dtype=float)
+            core = r <= sigma
+            base = name[:2]
+            if base in ('Pe', 'PY'):
+                ref = (np.exp(-u) - 1) * (1 + g)
+            elif base in ('Hy', 'HN'):
+                ref = np.exp(g - u) - 1 - g
+            elif base in ('Me', 'MS') and name in ('MeanSphericalApproximation', 'MSA'):
+                ref = -u
+            else:
+                ref = None
+            if flag:
+                worst_core = max(worst_core, float(np.abs(got[core] + 1 + g[core]).max()))
+                if ref is not None:
+                    worst_out = max(worst_out, float(np.abs(got[~core] - ref[~core]).max()))
+            elif ref is not None:
+                worst_out = max(worst_out, float(np.abs(got - ref).max()))
+    out[name] = [worst_core, worst_out]
+print('OBS ' + json.dumps(out))
+"""
+
+
+def run_optimized_mode(ctx, case):
+    """the interpreter's optimised mode (python -O / PYTHONOPTIMIZE=1 strips assert statements): the closures equal their definitions and
+    keep the core rule there as well.  A fresh interpreter per mode; the reference values are computed inside the script."""
+    import subprocess
+    import sys as _sys
+    from .. import core
+    for mode, args, envx in (('normal', [], {}), ('-O', ['-O'], {}), ('PYTHONOPTIMIZE=1', [], {'PYTHONOPTIMIZE': '1'})):
+        env = dict(os.environ, PYTHONPATH=core.REPO, PYTHONWARNINGS='ignore', **envx)
+        env.pop('PYTHONOPTIMIZE', None) if mode == 'normal' else None
+        p = subprocess.run([_sys.executable] + args + ['-c', OPT_SCRIPT], env=env, stdout=subprocess.PIPE, stderr=subprocess.STDOUT, universal_newlines=True, timeout=120)
+        line = [l for l in p.stdout.splitlines() if l.startswith('OBS ')]
+        if not line:
+            ctx.violation('closure:raises-in-interpreter-mode:%s' % mode, 'closure evaluation in a %s interpreter failed: %s' % (mode, p.stdout.strip().splitlines()[-1][:200] if p.stdout.strip() else 'no output'))
+            continue
+        obs = json.loads(line[0][4:])
+        ctx.hook('interpreter_mode_probe')
+        for name, (wc, wo) in ((k, v) for k, v in obs.items() if k != 'optimize_flag'):
+            if not wc <= 1e-12:
+                ctx.violation('closure:core-rule-broken-in-interpreter-mode', '%s(apply_hard_core=True) in a %s interpreter: |c + gamma + 1| = %.3g inside the core' % (name, mode, wc))
+            if not wo <= 1e-12:
+                ctx.violation('closure:differs-from-definition-in-interpreter-mode', '%s in a %s interpreter differs from its relation by %.3g' % (name, mode, wo))
+    ctx.nontrivial(['optimized_mode'])
+
+
 def run_case(ctx, case):
+    if case.get('kind') == 'optimized_mode':
+        return run_optimized_mode(ctx, case)
     if case.get('kind') == 'repo_suite':
         return SUITE.run(ctx)
     rng = np.random.default_rng(case['seed'])
